@@ -2008,6 +2008,18 @@ def c20(W, replay=None):
                                         extra=["-depth", "9", "-seed", str(W.seed)], timeout=900)
         ws = sample(W, W.scenarios_from(out), 800 if thorough else 40)
         scen += [{"id": "c20/w/%d" % i, "events": h} for i, h in enumerate(ws)]
+        # every ordered pair of settings on one CA source and one interval (no sampling): which settings share a pool entry
+        # and which must not is decided by the skip form alone there
+        k = 0
+        for ca in ("none", "inline1", "file"):
+            for interval in (0, 1):
+                for s1 in ("absent", "true", "strTrue", "false", "strFalse"):
+                    for s2 in ("absent", "true", "strTrue", "false", "strFalse"):
+                        ev = [{"op": "start", "ca": "", "skip": "", "interval": 0, "content": "ca1"},
+                              {"op": "load", "ca": ca, "skip": s1, "interval": interval, "content": ""},
+                              {"op": "load", "ca": ca, "skip": s2, "interval": interval, "content": ""}]
+                        scen.append({"id": "c20/pair/%d" % k, "events": ev})
+                        k += 1
     else:
         scen = [json.loads(l) for l in open(os.path.join(replay, "scenario.ndjson")) if l.strip()]
     index = {s_["id"]: s_ for s_ in scen}
